@@ -163,3 +163,11 @@ Proof. vm_compute. repeat split; repeat constructor. Qed.
 Example C12_map_to_fr_100_bytes :
   Fr_from_be_bytes (repeat 255%N 100) = (256 ^ 100 - 1) mod bls_r.
 Proof. vm_compute. reflexivity. Qed.
+
+(* "identical on every call": key generation reads no package-level state besides init-once
+   instances and read-only tables (regenerated list of every package-level variable) *)
+From V Require Generated.Guards Proofs.CStaticProofs.
+Theorem C12_no_call_to_call_state :
+  Guards.go_package_state = List.map fst CStaticProofs.reviewed_package_state.
+Proof. exact CStaticProofs.package_state_is_reviewed. Qed.
+Print Assumptions C12_no_call_to_call_state.
